@@ -103,6 +103,10 @@ class Assembly:
                             raise Undecided('type %s: substitution anchor %r lost' % (a[kind], old))
                         text = text.replace(old, new)
                         self.rewrites.append(('R4-sub %r=>%r' % (old, new), a[kind], cnt))
+                if 'pubfields' in a:
+                    # visibility only: private fields become `pub` so that specifications can mention them (no behaviour)
+                    text, cnt = re.subn(r'(\n\s+)(?!pub\b)([a-z_][a-z0-9_]*\s*:)', r'\1pub \2', text)
+                    self.rewrites.append(('R2 field visibility -> pub', a[kind], cnt))
                 self.emit('// ---- copied (R2) from %s:%d-%d sha256=%s' % (rec['file'], rec['line_start'], rec['line_end'], rec['sha256'][:16]))
                 if 'attr' in a:
                     self.emit(a['attr'])
